@@ -1,20 +1,26 @@
 """C07 -- validating resolver: Secure implies an unbroken chain to a trust anchor; tampering on the
 chain never yields Secure and never silently Insecure; Insecure only with a validated denial of DS
-/ only unsupported algorithms.
+/ only unsupported algorithms; the server sets AD only for Secure data and answers SERVFAIL to CD=0
+clients on Bogus.
 
 D: Chain.tla -- an adversary tampers with up to MaxFaults items of the upstream responses, then a
    validator walks from a configured anchor down to the zone of the query (Begin, AuthAnchorKeys,
-   AuthDS, AuthKeys, JudgeItem, Conclude, Serve).  TLC checks that the walk satisfies the declarative
-   requirements of ChainOps (C07_SecureImpliesChain, C07_InsecureOnlyProven,
-   C07_TamperNeverDowngrades, C07_NegSecure, C07_AD, C07_DepthBounded) for every world, query and
-   fault set; witnesses are reachable; the rules found in the code (MC_Chain_AsIs) are refuted.
+   AuthDS, AuthKeys, JudgeItem, Conclude) and a server maps the outcome for a client (Serve).  TLC
+   checks that the walk satisfies the declarative requirements of ChainOps
+   (C07_SecureImpliesChain, C07_InsecureOnlyProven, C07_TamperNeverDowngrades, C07_NegSecure,
+   C07_AD, C07_DepthBounded) for every world, query and fault set; witnesses are reachable; the
+   rules found in the code (MC_Chain_AsIs) are each refuted.
 R: Gen_Chain enumerates worlds x queries x fault sets (0, 1, 2 faults on any item of any upstream
    response) with, per item of the final response, whether Secure / Insecure is allowed;
    drive_chain builds every world from real InMemoryZoneHandlers signed by the server's own signer
    with generated keys, answers the validator's upstream queries from the right zone's Catalog,
-   applies the faults to the decoded response and runs DnssecDnsHandle::with_trust_anchor(..).send.
+   applies the faults to the decoded response and runs (stage one)
+   DnssecDnsHandle::with_trust_anchor(..).send in two delivery modes, (stage two) a client query
+   with CD / DO bits through Catalog -> ForwardZoneHandler -> validating Resolver ->
+   NameServerPool over the same simulated internet (RCODE, AD, answer items).
 T: the events of those runs plus seeded random deeper worlds (2-5 zones, two-key zones, extra
-   anchors, ECDSA) with up to three faults: validated by Trace_Chain with the same operators.
+   anchors, ECDSA) with up to three faults: validated by Trace_Chain with the same operators
+   (ObservationOk, ServedOk).
 """
 import json
 import os
@@ -196,6 +202,7 @@ def run(res, tier, seed):
     best_hit = {"Secure": 0, "Insecure": 0, "Bogus": 0}
     not_best = []
     nserved = {}
+    work = {"max_upstream_queries": 0, "input": None, "panics": 0, "timeouts": 0}
     nshards = 6
     for (nm, wexpr, qexpr, counts) in (GEN_THOROUGH if thorough else GEN_QUICK):
         tla_p, cfg_p = vlib.wrapper(wd, "G_" + nm, "Gen_Chain", {"P_Worlds": wexpr, "P_Queries": qexpr, "P_Counts": counts}, GEN_CFG)
@@ -228,6 +235,11 @@ def run(res, tier, seed):
                     res.nontrivial.add(vlib.digest(inp))
                 for mode, obs in zip(("raw", "pool"), v["observed"]):
                     res.evaluations += 1
+                    # work done for one client query (informational: the statement does not bound it)
+                    if obs["asked"] > work["max_upstream_queries"]:
+                        work["max_upstream_queries"], work["input"] = obs["asked"], inp
+                    work["panics"] += obs["detail"] == "PANIC"
+                    work["timeouts"] += obs["detail"] == "TIMEOUT"
                     for what, item in fails_of(c, obs["items"], obs["class"]):
                         for cls_, fields in classify(what, item, c):
                             res.mismatch(cls_, fields, {"generator": nm, "mode": mode, "input": inp, "observed": obs,
@@ -268,6 +280,7 @@ def run(res, tier, seed):
     if not nserved.get(("NOERROR", True)) or not nserved.get(("SERVFAIL", False)):
         raise vlib.ToolError(f"vacuous binding of stage two: AD / SERVFAIL never served ({nserved})")
     res.extra["served_responses_by_rcode_ad"] = {f"{k[0]}/ad={int(k[1])}": n for k, n in sorted(nserved.items())}
+    res.extra["validator_work"] = work
     res.extra["generated_cases_replayed"] = total
     res.extra["unfaulted_runs_by_best_verdict"] = best_seen
     res.extra["unfaulted_runs_reaching_it"] = best_hit
